@@ -60,7 +60,7 @@ CLAIMED = {
     "C17": (
         "proof",
         "Coq proof by induction over strings on the normalize model (all per-line mixtures of LF/CRLF/CR; NUL vs U+FFFD) + correspondence of normalize (direct definition and regenerated regexes vs implementation) + pipeline comparison under encodings + column-constructed tab/space twins",
-        "Theorems for ALL strings: every re-encoding of the line ends of a CR-free text (any per-line choice of LF, CR LF, lone CR) normalises to the same string; NUL behaves exactly like U+FFFD; no CR or NUL survives; normalize is idempotent (C17_line_endings, C17_crlf, C17_nul_is_fffd, C17_no_cr_nul_left). Since normalize is the first core rule and everything after reads only state.src, tokens, maps, env and HTML coincide - checked on the implementation for every sampled document under LF / CRLF / CR / mixed and NUL/U+FFFD in standard and random configurations. Tab half (structural tabs == spaces to the next tab stop): decided in this run by exploration on the implementation with column-exact constructed twins (leading-whitespace family (a), container-segment family (b) incl. nested quotes continued over several lines), compared modulo the blanks the property exempts; its column-arithmetic theorems belong to the block model and are not claimed yet.",
+        "Theorems for ALL strings: every re-encoding of the line ends of a CR-free text (any per-line choice of LF, CR LF, lone CR) normalises to the same string; NUL behaves exactly like U+FFFD; no CR or NUL survives; normalize is idempotent (C17_line_endings, C17_crlf, C17_nul_is_fffd, C17_no_cr_nul_left). Since normalize is the first core rule and everything after reads only state.src, tokens, maps, env and HTML coincide - checked on the implementation for every sampled document under LF / CRLF / CR / mixed and NUL/U+FFFD in standard and random configurations. Tab half (structural tabs == spaces to the next tab stop): proved at the top level for the indentation table - for EVERY document of lines blanks ++ rest ++ LF the recorded indentation column of each line is the tab-stop column width of its blanks, so every column-preserving re-spelling of leading blanks (a tab for the spaces up to the next multiple of four, or the column-exact expansion of every tab) leaves the sCount table and the line count unchanged (C17_indent_is_column_width, C17_respelling_keeps_columns, C17_tab_expansion_keeps_columns, C17_expansion_column_exact; Lemmas/TabCols.v); that all block rules read indentation only through this table and the blanks behind container markers is decided in this run by exploration on the implementation with column-exact constructed twins (leading-whitespace family (a), container-segment family (b) incl. nested quotes continued over several lines), compared modulo the blanks the property exempts; its column-arithmetic theorems belong to the block model and are not claimed yet.",
         "Trusted: Coq kernel; normalize model tied by correspondence; tab half by exploration (partial); comparison of verbatim blocks / code spans / raw inline HTML / image labels / titles is modulo the spelling of blanks (DESIGN.md reading).",
         "DESIGN.md §3 C17",
     ),
